@@ -231,3 +231,77 @@ def native_via_from_xml(val, clean, collapse, literal, redeclare) -> str:
     norm(e)
     root = metapype_io.from_xml(doc, clean, collapse, literals)
     return _mirror(e, root, clean, collapse, literals)
+
+
+# ------------------------------------------------------------------ import -> export -> import, symbolically
+from harness import xmlscan
+
+
+def _to_stub(e, scopes, parent=None):
+    """xmlscan infoset -> the lxml-like stub (what a conforming parser would hand to the importer)."""
+    scope = {k: v for k, v in scopes[id(e)].items() if k != ""}
+    if ":" in e.name:
+        pfx, local = e.name.split(":", 1)
+        tag = "{%s}%s" % (scope[pfx], local)
+    else:
+        pfx, local = None, e.name
+        tag = local
+    s = Elem(tag, scope, pfx, text=(e.text if e.text != "" else None), tail=(e.tail if e.tail != "" else None))
+    for an, av in e.attrs:
+        if an.startswith("xmlns"):
+            continue
+        if ":" in an:
+            ap, al = an.split(":", 1)
+            uri = XMLNS if ap == "xml" else scope[ap]
+            s.attrib["{%s}%s" % (uri, al)] = av
+        else:
+            s.attrib[an] = av
+    for c in e.children:
+        s.append(_to_stub(c, scopes, s))
+    return s
+
+
+def _same(a, b, strip) -> str:
+    if (a.name, a.prefix, dict(a.attributes), dict(a.extras), dict(a.nsmap)) != (b.name, b.prefix, dict(b.attributes), dict(b.extras), dict(b.nsmap)):
+        return "node %s re-imported as %r" % (a.name, (b.name, b.prefix, dict(b.attributes), dict(b.extras), dict(b.nsmap)))
+    ca, cb, ta, tb = a.content, b.content, a.tail, b.tail
+    if strip:
+        ca, cb, ta, tb = (ca or "").strip(), (cb or "").strip(), (ta or "").strip(), (tb or "").strip()
+    if ca != cb:
+        return "content of %s: %r re-imported as %r" % (a.name, a.content, b.content)
+    if ta != tb:
+        return "tail of %s: %r re-imported as %r" % (a.name, a.tail, b.tail)
+    if len(a.children) != len(b.children):
+        return "%s: %d children re-imported as %d" % (a.name, len(a.children), len(b.children))
+    for x, y in zip(a.children, b.children):
+        r = _same(x, y, strip)
+        if r:
+            return r
+    return ""
+
+
+def h_loop(val: Optional[str], collapse: bool) -> str:
+    """
+    pre: val is None or (len(val) <= MAXLEN and in_alpha(val))
+    post: _ == ""
+    """
+    Node.store.clear()
+    ns_root = {"p": "urn:p"}
+    r = Elem("{urn:p}r", ns_root, "p", text=None)
+    c = r.append(Elem("c", {"p": "urn:p2"} if AKIND == 3 else ns_root, None, text=(val if FLD == 0 else "x"), tail=(val if FLD == 1 else None)))
+    if AKIND == 2:
+        c.attrib["{%s}lang" % XMLNS] = "en"
+    elif AKIND in (1, 3):
+        c.attrib["{%s}b" % c.nsmap["p"]] = "v"
+    else:
+        c.attrib["b"] = "v"
+    r.append(Elem("{urn:p}d", ns_root, "p"))
+    t1 = metapype_io._process_element(r, True, collapse, ())
+    doc = metapype_io.to_xml(t1)
+    try:
+        e = xmlscan.parse(doc)
+        scopes = xmlscan.check_namespaces(e)
+    except xmlscan.IllFormed as ex:
+        return "export of the imported tree is not well-formed (%s): %r" % (ex, doc)
+    t2 = metapype_io._process_element(_to_stub(e, scopes), True, collapse, ())
+    return _same(t1, t2, True)
